@@ -1,15 +1,23 @@
 use rooc::*;
 fn main() {
-    let m = LinearModel::new();
-    for i in 0..5 {
-        let m = m.clone();
-        let r = std::panic::catch_unwind(move || match i {
-            0 => format!("{:?}", solve_milp_lp_problem(&m).map(|s| s.value())),
-            1 => format!("{:?}", auto_solver(&m).map(|s| s.value())),
-            2 => format!("{:?}", solve_real_lp_problem_micro_lp(&m).map(|s| s.value())),
-            3 => format!("{:?}", solve_real_lp_problem_clarabel(&m).map(|s| s.value())),
-            _ => format!("{:?}", solve_real_lp_problem_slow_simplex(&m, 100).map(|s| s.value())),
-        });
-        println!("{i}: {:?}", r);
+    let mut m = LinearModel::new();
+    m.add_variable("x0", VariableType::non_negative_real());
+    m.add_variable("x1", VariableType::real());
+    m.add_constraint(vec![1.0, -4.0], Comparison::GreaterOrEqual, 0.0);
+    m.add_constraint(vec![0.0, 0.0], Comparison::LessOrEqual, 0.0);
+    m.add_constraint(vec![-1.0, 0.0], Comparison::LessOrEqual, 0.0);
+    m.add_constraint(vec![3.0, 3.0], Comparison::GreaterOrEqual, 0.0);
+    m.set_objective(vec![1.0, 1.0], OptimizationType::Min);
+    let s = m.clone().into_standard_form().unwrap();
+    println!("{}", s);
+    let mut t = s.into_tableau().unwrap();
+    println!("vars {:?}\nA {:?}\nb {:?}\nc {:?}\nbasis {:?} value {}", t.variables(), t.a_matrix(), t.b_vec(), t.c_vec(), t.in_basis(), t.current_value());
+    loop {
+        match t.step(&[]) {
+            Ok(StepAction::Pivot{entering, leaving, ratio}) => println!("pivot {entering} {leaving} {ratio} -> value {} b {:?} basis {:?}", t.current_value(), t.b_vec(), t.in_basis()),
+            Ok(StepAction::Finished) => { println!("finished"); break; }
+            Err(e) => { println!("err {e}"); break; }
+        }
     }
+    println!("{:?}", solve_real_lp_problem_slow_simplex(&m, 1000).map(|s| s.value()));
 }
